@@ -42,7 +42,55 @@ const (
 	// FROM table [, {table|LATERAL laterable_table} ...]
 	// -> signature from_comma_list_syntax_error.
 	avoidKnownCommaListSyntax = true
+	// After a join without trailing condition (CROSS JOIN, NATURAL JOIN) a
+	// further join that starts with INNER, LEFT, RIGHT or FULL is attached to
+	// the right operand only: a CROSS JOIN b LEFT JOIN c ON c.x = a.x parses
+	// as a CROSS JOIN (b LEFT JOIN c ON ...) ("field a.x does not exist";
+	// RIGHT/FULL joins silently pad differently), whereas a following plain
+	// JOIN / CROSS JOIN / NATURAL JOIN is attached to the whole left side
+	// -> signature join_after_cross_or_natural_binds_right. Avoided by
+	// writing the left operand in parentheses.
+	avoidKnownJoinBindsRight = true
 )
+
+// joinBindsRightShape visits every join written as `L <kw> JOIN r` where L is
+// an unparenthesised CROSS/NATURAL join and <kw> is INNER/LEFT/RIGHT/FULL.
+func joinBindsRightShape(q *ref.SelQuery, fix bool) bool {
+	if q == nil {
+		return false
+	}
+	found := false
+	var inSource func(s *ref.SelSource)
+	inSource = func(s *ref.SelSource) {
+		switch {
+		case s == nil:
+		case s.Kind == "sub":
+			if joinBindsRightShape(s.Sub, fix) {
+				found = true
+			}
+		case s.Kind == "join":
+			l := s.Left
+			kw := !s.Natural && (s.JoinType == "LEFT" || s.JoinType == "RIGHT" || s.JoinType == "FULL" || (s.JoinType == "INNER" && s.InnerKw))
+			if kw && l.Kind == "join" && !l.Paren && (l.JoinType == "CROSS" || l.Natural) {
+				found = true
+				if fix {
+					l.Paren = true
+				}
+			}
+			inSource(s.Left)
+			inSource(s.Right)
+		}
+	}
+	for _, s := range q.From {
+		inSource(s)
+	}
+	for _, c := range q.With {
+		if joinBindsRightShape(c.Query, fix) || joinBindsRightShape(c.Step, fix) {
+			found = true
+		}
+	}
+	return found
+}
 
 // commaListDefectShape: some FROM list has an item that is neither the first
 // nor the last and is not a subquery.
@@ -927,6 +975,9 @@ func genCase(t *rapid.T) selCase {
 	}
 	q, _ := g.query(0, nil, false)
 	q.With = g.pending
+	if avoidKnownJoinBindsRight {
+		joinBindsRightShape(q, true)
+	}
 	c.Query = q
 	c.SQL = ref.SelSQL(q)
 	return c
@@ -1193,7 +1244,8 @@ func checkCase(c selCase) (fw.Outcome, *fw.Violation) {
 		return o, nil
 	}
 	commaDefect := commaListDefectShape(c.Query)
-	if (avoidKnownLateralEmptyLeft && st.LateralEmptyLeft) || (avoidKnownStarDuplicateUsingColumn && st.DupJoinStar) || (avoidKnownCommaListSyntax && commaDefect) {
+	bindsRight := joinBindsRightShape(c.Query, false)
+	if (avoidKnownJoinBindsRight && bindsRight) || (avoidKnownLateralEmptyLeft && st.LateralEmptyLeft) || (avoidKnownStarDuplicateUsingColumn && st.DupJoinStar) || (avoidKnownCommaListSyntax && commaDefect) {
 		o.Discard = true
 		fw.AddExtra("discarded_known_defect_shape", 1)
 		return o, nil
@@ -1239,6 +1291,8 @@ func checkCase(c selCase) (fw.Outcome, *fw.Violation) {
 	}
 	special := func(sig string) string {
 		switch {
+		case bindsRight:
+			return "join_after_cross_or_natural_binds_right"
 		case st.LateralEmptyLeft:
 			return "lateral_empty_left_header_lost"
 		case st.DupJoinStar:
@@ -1302,7 +1356,7 @@ func TestC03Select(t *testing.T) {
 			"merged columns: COALESCE(left, right), first in USING/left-side order, then the remaining left and right columns (SQL standard; the manual is silent); for RIGHT joins the spelling of a merged value that differs between the sides is not asserted (case discarded)",
 			"NATURAL JOIN without common columns is a join without condition (every pair matches)",
 			"recursive CTEs only in forms that terminate by a bound on a counter column and use UNION ALL",
-			fmt.Sprintf("cases of reported defect shapes are put aside while these are true: avoidKnownLateralEmptyLeft=%v avoidKnownStarDuplicateUsingColumn=%v avoidKnownCommaListSyntax=%v", avoidKnownLateralEmptyLeft, avoidKnownStarDuplicateUsingColumn, avoidKnownCommaListSyntax),
+			fmt.Sprintf("cases of reported defect shapes are put aside while these are true: avoidKnownLateralEmptyLeft=%v avoidKnownStarDuplicateUsingColumn=%v avoidKnownCommaListSyntax=%v avoidKnownJoinBindsRight=%v", avoidKnownLateralEmptyLeft, avoidKnownStarDuplicateUsingColumn, avoidKnownCommaListSyntax, avoidKnownJoinBindsRight),
 		},
 	})
 }
